@@ -201,6 +201,11 @@ def entry_points():
     E['compute_burst_features.burst_method'] = lambda v: compute_burst_features(compute_shape_features(sig, 64, (6, 14)), sig, burst_method=v)
     E['Bycycle.fit.burst_method'] = lambda v: Bycycle(burst_method=v, thresholds=dict(S.T0)).fit(sig, 64, (6, 14))
     E['find_extrema.first_extrema'] = lambda v: find_extrema(sig, 64, (6, 14), first_extrema=v)
+    E['find_extrema.nopad.first_extrema'] = lambda v: find_extrema(sig, 64, (6, 14), first_extrema=v, pad=False)
+    E['find_extrema.boundary5.first_extrema'] = lambda v: find_extrema(sig, 64, (6, 14), first_extrema=v, boundary=5, filter_kwargs={'n_cycles': 2})
+    E['BycycleGroup.fit.min_n_cycles'] = lambda v: BycycleGroup(thresholds={'min_n_cycles': v}).fit(sigs2, 64, (6, 14), n_jobs=1)
+    E['Bycycle.fit.amp.min_n_cycles'] = lambda v: Bycycle(burst_method='amp', thresholds={'burst_fraction_threshold': .5, 'min_n_cycles': v}).fit(sig, 64, (6, 14))
+    E['Bycycle.fit.amp.bk.min_n_cycles'] = lambda v: Bycycle(burst_method='amp', burst_kwargs={'min_n_cycles': v}).fit(sig, 64, (6, 14))
     E['compute_features.find_extrema_kwargs.first_extrema'] = lambda v: compute_features(sig, 64, (6, 14), threshold_kwargs=dict(S.T0), find_extrema_kwargs={'first_extrema': v})
     E['compute_amp_consistency.direction'] = lambda v: compute_amp_consistency(_table(), direction=v)
     E['compute_period_consistency.direction'] = lambda v: compute_period_consistency(_table(), direction=v)
@@ -285,6 +290,11 @@ def probes():
             P.append([e + '.burst_method', v, exp])
     for v, exp in (('peak', 'ok'), ('trough', 'ok'), (None, 'ok'), ('x', 'VE'), ('Peak', 'VE'), (0, 'VE')):
         P.append(['find_extrema.first_extrema', v, exp])
+        P.append(['find_extrema.nopad.first_extrema', v, exp])
+        P.append(['find_extrema.boundary5.first_extrema', v, exp])
+    for e in ('BycycleGroup.fit', 'Bycycle.fit.amp', 'Bycycle.fit.amp.bk', 'Bycycle.fit', 'compute_features.cycles', 'check_min_burst_cycles'):
+        for v, exp in ((-1, 'VE'), (-.5, 'VE'), (-1e-6, 'VE'), (-.999, 'VE'), (0, 'ok'), (2.5, 'ok')):
+            P.append([e + '.min_n_cycles', v, exp])
     for v in ('peak', 'trough', 'x', None):
         P.append(['compute_features.find_extrema_kwargs.first_extrema', v, 'VE'])
     for e in ('compute_amp_consistency', 'compute_period_consistency', 'recompute_edge'):
